@@ -199,6 +199,11 @@ func WrongVersionHist(idx, proto, callers int) *Hist {
 	return h
 }
 
+// CancelInBuildHist: n requests that cancel themselves inside frame building, on the direct writer.
+func CancelInBuildHist(idx, proto, n int) *Hist {
+	return &Hist{Index: idx, Proto: proto, TimeoutMs: 5000, Coalesce: false, CancelInBuild: n, Fates: []Fate{FOK, FOK, FOK}, CModes: []CMode{CNone, CNone, CNone}}
+}
+
 // Term prints the report's logs as a Coq term of type C01.Corr.case.
 func (rep *Report) Term() string {
 	var logs []string
@@ -292,6 +297,8 @@ func Emit(o *hlib.Out, reps []*Report) {
 			kind = "temp-read-error"
 		case h.HeartbeatErr:
 			kind = "heartbeat-error-frame"
+		case h.CancelInBuild > 0:
+			kind = "cancel-in-build"
 		case h.TimeoutLimit > 0:
 			kind = "timeout-limit"
 		case h.Handshake != 0:
